@@ -530,3 +530,146 @@ def gen_source(rng, stratum):
         g = Gen(rng, size=rng.range(1, 3), shuffle_header=rng.chance(1, 4))
         return render_adversarial(g.file(), rng, intensity=rng.range(1, 8), comment_share=rng.range(0, 3)), {"stratum": stratum}
     raise ValueError(stratum)
+
+
+# ------------------------------------------------------------------ analysis of a token tree (harness dump)
+# token classes of the verif hook: 0 space, 1 space with newline, 2 line comment, 3 block comment,
+# 4 unrecognized, 5 `;`, 6 `,`, 7 `=`, 8 other leaf, 9 (...), 10 [...], 11 {...}, 12 <...>, 13 fused string
+def _txt(t):
+    return bytes.fromhex(t["t"])
+
+
+def scope_kind(t, parent_kind, prev, prev2):
+    """syntactic role of the fused token t (a guess from its neighbours; only used to name classes)"""
+    c = t["c"]
+    pt = _txt(prev) if prev is not None else b""
+    if c == 13:
+        return "string"
+    lit = parent_kind in ("dict", "array", "copts")
+    if c == 11:
+        if lit or (prev is not None and prev["c"] == 7):
+            return "dict"
+        return "body"
+    if c == 12:
+        return "dict" if lit else "targs"
+    if c == 10:
+        if parent_kind == "dict":
+            return "array" if pt == b":" else "extkey"
+        if parent_kind in ("array",) or (prev is not None and prev["c"] == 7):
+            return "array"
+        return "copts"
+    if c == 9:
+        if parent_kind in ("body", "file") and (pt == b"returns" or (prev2 is not None and _txt(prev2) == b"rpc")):
+            return "sig"
+        return "extpath"
+    return "other"
+
+
+INDENTING = ("body", "dict", "copts", "sig")
+
+
+def analyse(tree, att, det, src=b""):
+    """Features of a source that trigger the known round-trip defects, from the hook dump."""
+    F = set()
+    # offsets: the leaves tile the text in stream order
+    off = [0]
+    end_of = {}
+
+    def place(ts):
+        for t in ts:
+            off[0] += len(_txt(t))
+            if t["c"] >= 9:
+                place(t["ch"])
+                off[0] += len(bytes.fromhex(t["ct"]))
+                end_of[t["id"]] = off[0]
+    place(tree or [])
+
+    def col(o):
+        return o - (src.rfind(b"\n", 0, o) + 1)
+    A = {a["id"]: a for a in att or []}
+    D = {d["id"]: d for d in det or []}
+    kept = set()
+    for a in A.values():
+        kept.update(a["l"]); kept.update(a["t"])
+    for d in D.values():
+        for s in d["slots"] or []:
+            kept.update(s)
+    cls = {}
+    info = {"gaps": []}
+
+    def walk(ts, kind, depth, scope_id):
+        prev = prev2 = None
+        run = []
+        solids = [t for t in ts if t["c"] > 4]
+        for t in ts:
+            cls[t["id"]] = t["c"]
+            if t["c"] <= 4:
+                run.append(t)
+                if t["id"] not in kept:
+                    F.add("trivia-inside-concatenated-string-dropped" if kind == "string" else "trivia-dropped-before-closer")
+                continue
+            info["gaps"].append((run, depth, t))
+            nl_before = any(x["c"] == 1 for x in run)
+            run = []
+            if kind == "dict" and t["c"] in (5, 6):
+                F.add("roundtrip-drops-message-literal-separator")
+            if t["c"] >= 9:
+                k2 = scope_kind(t, kind, prev, prev2)
+                if t["id"] not in A:
+                    F.add("roundtrip-displaces-trivia-at-bracket-after-separator")
+                d2 = depth + (1 if k2 in INDENTING else 0)
+                has_nl = walk(t["ch"], k2, d2, t["id"])
+                # the printer wraps these in a dom group that breaks when it holds a newline (the
+                # leading trivia of the open bracket is inside it) or is wider than 100 columns
+                if k2 in ("copts", "sig") and (has_nl or nl_before or col(end_of.get(t["id"], 0)) > 90):
+                    F.add("roundtrip-inserts-line-break-before-closing-bracket")
+                dd = D.get(t["id"], {"slots": []})
+                slots = dd["slots"] or []
+                if k2 != "body" and any(len(s) > 0 for s in slots[1:]):
+                    F.add("roundtrip-misplaces-detached-trivia-in-literal")
+                if k2 == "body":
+                    sol = [x for x in t["ch"] if x["c"] > 4]
+                    pend = list(slots[-1]) if slots else []
+                    if sol:
+                        last = sol[-1]
+                        pend = list(A.get(last.get("close", last["id"]), {"t": []})["t"]) + pend
+                    else:
+                        pend = [i for s in slots for i in s]
+                    if any(cls.get(i) in (2, 3) for i in pend):
+                        F.add("roundtrip-moves-comment-before-closing-brace")
+                # the run before the close token
+                tail = []
+                for x in reversed(t["ch"]):
+                    if x["c"] <= 4:
+                        tail.insert(0, x)
+                    else:
+                        break
+                info["gaps"].append((tail, depth, {"c": t["c"], "close_of": t["id"]}))
+            prev2, prev = prev, t
+        return any(x["c"] == 1 or b"\n" in _txt(x) for x in ts) or any(
+            (x["c"] >= 9 and _has_nl(x)) for x in ts)
+
+    def _has_nl(x):
+        return any(y["c"] == 1 or b"\n" in _txt(y) or (y["c"] >= 9 and _has_nl(y)) for y in x["ch"])
+
+    walk(tree or [], "file", 0, 0)
+    for run, depth, nxt in info["gaps"]:
+        if run and depth >= 1 and all(x["c"] == 1 and _txt(x) == b"\n" for x in run):
+            F.add("roundtrip-reindents-unindented-line")
+    return F
+
+
+def eof_features(src, tree):
+    """src: bytes.  The last chunk the printer pushes is the trivia after the last token of the file."""
+    F = set()
+    if not src.endswith(b"\n"):
+        F.add("roundtrip-appends-final-newline")
+    tail = b""
+    for t in reversed(tree or []):
+        if t["c"] <= 4:
+            tail = _txt(t) + tail
+        else:
+            break
+    if tail and (tail == b" " * len(tail) or (tail == b"\n" * len(tail) and len(tail) >= 2)):
+        F.add("roundtrip-normalizes-whitespace-at-eof")
+    return F
